@@ -67,9 +67,15 @@ func WithGlobalTx(ctx context.Context, gc *GtxConfig, business CallbackWithCtx) 
 		return
 	}
 
+	// set once the business function has returned: a panic(nil) (recover() answers nil for it under
+	// this module's go version) or a runtime.Goexit leaves it false, and neither is a success
+	completed := false
 	defer func() {
 		var err error
 		deferErr := recover()
+		if deferErr == nil && !completed {
+			deferErr = "the business function did not return (panic(nil) or runtime.Goexit)"
+		}
 		// no need to do second phase if propagation is some type e.g. NotSupported.
 		if IsGlobalTx(ctx) {
 			// business maybe to throw panic, so need to recover it here.
@@ -88,6 +94,7 @@ func WithGlobalTx(ctx context.Context, gc *GtxConfig, business CallbackWithCtx) 
 	}()
 
 	re = business(ctx)
+	completed = true
 
 	return
 }
